@@ -337,7 +337,7 @@ func progDepth(p Prog) int {
 }
 
 func check(run *common.Run) {
-	run.Res.Rule = "cases = (a) structural queries: for every generated declaration set (3–6 struct types embedding earlier ones by value / by pointer / as a plain field, up to depth 3, value- and pointer-receiver methods drawn from four names with two signatures, func() fields named like methods — also two of them at one depth —, 3–4 interface types with embedding) every (struct type, selector name), every method set of T and *T, every (T or *T, interface) pair; (b) programs: the same sets crossed with 39 scenario forms (call on variable / pointer / &v / function result, method value with and without a later mutation, method value taken from an interface value holding v or &v with and without a later mutation, method expression, interface assignment by value and by pointer with and without a later mutation, assertion from a typed / empty interface to named, pointer, interface and anonymous-interface types in both result forms, type switches with and without binding, with overlapping interface clauses and a default clause at every position, a value-receiver method reached through a pointer variable / a promotion over an embedded pointer / an interface holding a pointer / a method value bound from a pointer with the operand dumped afterwards, nil interface values, error / fmt.Stringer / io.Writer / sort.Interface handed to host functions, also with the converted variable mutated or reassigned between the conversion and the use, interface{} asserted to fmt.Stringer after a mutation); every method increments and prints its receiver state, every program dumps its variable at the end; non-trivial = the type under test embeds at least one struct; distinct = distinct protocol line"
+	run.Res.Rule = "cases = (a) structural queries: for every generated declaration set (3–6 struct types embedding earlier ones by value / by pointer / as a plain field, up to depth 3, value- and pointer-receiver methods drawn from four names with two signatures, func() fields named like methods — also two of them at one depth —, 3–4 interface types with embedding) every (struct type, selector name), every method set of T and *T, every (T or *T, interface) pair; (b) programs: the same sets crossed with 42 scenario forms (call on variable / pointer / &v / function result, method value with and without a later mutation, method value taken from an interface value holding v or &v with and without a later mutation, method expression, interface assignment by value and by pointer with and without a later mutation, assertion from a typed / empty interface to named, pointer, interface and anonymous-interface types in both result forms, type switches with and without binding, with overlapping interface clauses and a default clause at every position, a value-receiver method reached through a pointer variable / a promotion over an embedded pointer / an interface holding a pointer / a method value bound from a pointer with the operand dumped afterwards, nil interface values, error / fmt.Stringer / io.Writer / sort.Interface handed to host functions, also with the converted variable mutated or reassigned between the conversion and the use, interface{} asserted to fmt.Stringer after a mutation, io.Copy / io.WriteString on script readers and writers whose optional WriteTo / ReadFrom / WriteString is own, promoted through an embedded value or pointer, of either receiver kind, or absent — compared by the call log, and the probe outcome with the Lean model of getWrapper); every method increments and prints its receiver state, every program dumps its variable at the end; non-trivial = the type under test embeds at least one struct; distinct = distinct protocol line"
 	drv, err := common.StartDriver("C05")
 	if err != nil {
 		run.Errorf("driver: %v", err)
@@ -475,6 +475,36 @@ func check(run *common.Run) {
 	if rerr != nil {
 		run.Errorf("reference: %v", rerr)
 		return
+	}
+	// host-side probes of optional interfaces: what the Lean models predict, against the call logs
+	for i, p := range progs {
+		line, opt, ok := probeQuery(p)
+		if !ok {
+			continue
+		}
+		a, err := drv.AskAll([]string{line})
+		if err != nil || len(a) != 1 {
+			run.Errorf("driver: probe: %v", err)
+			continue
+		}
+		af := common.Fields(a[0])
+		if af["y"] == "" || af["g"] == "" {
+			run.Errorf("driver answered %q to %q", a[0], line)
+			continue
+		}
+		run.Hit("struct:probe")
+		called := func(out string) (bool, bool) { // (the optional method was called, the program ran to its end)
+			return strings.Contains(out, "."+opt+","), !strings.Contains(out, "!")
+		}
+		if c, ran := called(impls[i].Out); ran && common.B(c) != af["y"] {
+			run.Disagree(common.Disagreement{Kind: "impl-vs-model", Input: p, Impl: impls[i].Out, Model: "probe y=" + af["y"] + " w=" + af["w"], Note: "host-side probe of " + opt + ": getWrapper / composed wrappers"})
+		}
+		if c, ran := called(refs[i].Out); ran && common.B(c) != af["g"] {
+			run.Disagree(common.Disagreement{Kind: "spec-vs-ref", Input: p, Spec: "probe g=" + af["g"], Ref: refs[i].Out, Note: "host-side probe of " + opt})
+		}
+		if af["y"] != af["g"] {
+			run.Hit("struct:probe-interpreter-differs-from-spec")
+		}
 	}
 	for i, p := range progs {
 		ans := common.Fields(answers[i])
